@@ -116,6 +116,19 @@ pub const OTHER_KEYS: &[&str] = &["spc", "bspc", "ent", "esc", "tab", "caps", "1
 pub const MOUSE_IN: &[&str] = &["mlft", "mrgt", "mmid", "mbck", "mfwd", "mwu", "mwd", "mwl", "mwr"];
 pub const MOD_PREFIX: &[&str] = &["C-", "S-", "A-", "M-", "RA-", "RC-", "RS-", "RM-", "AG-"];
 
+/// Mouse wheel pseudo-keys arrive as KeyValue::Tap (press+release at once), never as separate
+/// press / release / repeat events.
+pub fn is_wheel_code(c: u16) -> bool {
+    use std::sync::OnceLock;
+    static W: OnceLock<Vec<u16>> = OnceLock::new();
+    W.get_or_init(|| ["mwu", "mwd", "mwl", "mwr"].iter().map(|n| oscode_of(n)).collect()).contains(&c)
+}
+pub fn is_mouse_btn_code(c: u16) -> bool {
+    use std::sync::OnceLock;
+    static W: OnceLock<Vec<u16>> = OnceLock::new();
+    W.get_or_init(|| ["mlft", "mrgt", "mmid", "mbck", "mfwd"].iter().map(|n| oscode_of(n)).collect()).contains(&c)
+}
+
 pub fn oscode_of(name: &str) -> u16 {
     kanata_parser::keys::str_to_oscode(name).map(|o| o.as_u16()).unwrap_or(0)
 }
@@ -886,11 +899,18 @@ pub fn gen_general(r: &mut Rng, o: &GenOpts) -> CfgSpec {
     spec.defcfg = defcfg;
     // virtual keys definitions (no aliases, usually simple)
     g.in_vkey_def = true;
+    // virtual key actions must not (transitively) operate virtual keys: a self-retriggering
+    // virtual key is a deliberate perpetual-motion config, not a property of kanata
+    let saved_feats = g.feats;
+    if !o.hostile {
+        g.feats &= feat::PLAIN | feat::CHORD_OUT | feat::LWH | feat::MULTI | feat::UNICODE | feat::MOUSE_BTN | feat::NOOP | feat::ONE_SHOT | feat::REL_KEY | feat::UNMOD | feat::ARB_CODE | feat::CAPS_WORD | feat::LSW;
+    }
     for vk in &vkeys {
         let ac = if g.r.chance(600) { g.simple_or_layer() } else { g.action(g.max_depth.saturating_sub(1)) };
         spec.vkeys.push((vk.clone(), ac));
     }
     g.in_vkey_def = false;
+    g.feats = saved_feats;
     // aliases
     if feats & feat::ALIASES != 0 {
         let na = g.r.range(1, 3);
@@ -1204,16 +1224,23 @@ pub fn gen_history(r: &mut Rng, o: &HistOpts) -> Vec<Op> {
             let press = !can_press.is_empty() && (down.is_empty() || r.chance(550));
             if press {
                 let k = *r.pick(&can_press);
-                down.push(k);
-                ops.push(Op::Press(k));
+                if is_wheel_code(k) {
+                    ops.push(Op::TapEvt(k));
+                } else {
+                    down.push(k);
+                    ops.push(Op::Press(k));
+                }
             } else if !down.is_empty() {
                 let idx = r.below(down.len() as u64) as usize;
                 let k = down.remove(idx);
                 ops.push(Op::Release(k));
             }
             if o.repeats && !down.is_empty() && r.chance(250) {
-                ops.push(Op::Gap(gen_gap(r, o) as u32));
-                ops.push(Op::Repeat(*r.pick(&down)));
+                let k = *r.pick(&down);
+                if !is_mouse_btn_code(k) {
+                    ops.push(Op::Gap(gen_gap(r, o) as u32));
+                    ops.push(Op::Repeat(k));
+                }
             }
             if o.dup_orphan_permille > 0 && r.chance(o.dup_orphan_permille) {
                 // Dup: press of a key already down / Orphan: release of a key not down
@@ -1251,8 +1278,12 @@ pub fn gen_history(r: &mut Rng, o: &HistOpts) -> Vec<Op> {
                     let can_press: Vec<u16> = o.keys.iter().copied().filter(|k| !down.contains(k)).collect();
                     if !can_press.is_empty() && (down.is_empty() || r.chance(500)) {
                         let k = *r.pick(&can_press);
-                        down.push(k);
-                        ops.push(Op::Press(k));
+                        if is_wheel_code(k) {
+                            ops.push(Op::TapEvt(k));
+                        } else {
+                            down.push(k);
+                            ops.push(Op::Press(k));
+                        }
                     } else if !down.is_empty() {
                         let idx = r.below(down.len() as u64) as usize;
                         ops.push(Op::Release(down.remove(idx)));
